@@ -18,7 +18,7 @@ from sa.report import Ctx, VIOLATION  # noqa: E402
 _BASE = None
 
 
-from sa.alpha import local_names, rename_in_source  # noqa: E402
+from sa.alpha import local_names, rename_in_source, structural_variant  # noqa: E402
 
 
 def _viol(prop, prog):
@@ -27,8 +27,13 @@ def _viol(prop, prog):
     return {(r.rule, r.key) for r in ctx.results if r.status == VIOLATION}, ctx
 
 
+KIND = "rename"
+
+
 def _one(args):
     prop, qual = args
+    if KIND != "rename":
+        return _one_structural(prop, qual, KIND)
     global _BASE
     if _BASE is None:
         _BASE = Program()
@@ -62,11 +67,44 @@ def _one(args):
     return (qual, "ok", f"{len(names)} names")
 
 
+def _one_structural(prop, qual, kind):
+    global _BASE
+    if _BASE is None:
+        _BASE = Program()
+    base = _BASE
+    fn = base.funcs[qual]
+    text = structural_variant(fn.module.src, fn.node, kind)
+    if not text:
+        return (qual, "skip", "")
+    try:
+        b, _ = _viol(prop, base)
+        v, _ = _viol(prop, base.with_override(fn.module.rel, text))
+    except AnalysisError as e:
+        return (qual, "error", str(e)[:200])
+    except Exception as e:  # noqa
+        return (qual, "crash", f"{type(e).__name__}: {e}"[:200])
+    fresh = sorted(v - b)
+    gone = sorted(b - v)
+    if fresh:
+        return (qual, "ALARM", str(fresh[:3]))
+    if gone:
+        return (qual, "lost", str(gone[:3]))
+    return (qual, "ok", "")
+
+
+def _set_kind(k):
+    global KIND
+    KIND = k
+
+
 def main():
     args = [a for a in sys.argv[1:] if not a.startswith("--")]
     jobs = 16
     only = None
+    global KIND
     for i, a in enumerate(sys.argv):
+        if a == "--kind":
+            KIND = sys.argv[i + 1]
         if a == "--jobs":
             jobs = int(sys.argv[i + 1])
         if a == "--only":
@@ -77,7 +115,7 @@ def main():
     for prop in args:
         _, ctx = _viol(prop, base)
         quals = sorted(q for q in ctx.analysed_funcs if q in base.funcs and (only is None or only in q))
-        with mp.Pool(jobs) as pool:
+        with mp.Pool(jobs, initializer=_set_kind, initargs=(KIND,)) as pool:
             res = pool.map(_one, [(prop, q) for q in quals], chunksize=1)
         tally = {}
         for q, st, why in res:
